@@ -91,6 +91,9 @@ MultipleDrivers(D) ==
 
 \* "process variables never appear outside their process"
 ProcVars(s) == {s.decls[i].n : i \in {j \in 1..Len(s.decls) : s.decls[j].k = "variable"}}
+\* every name a process declares: variables, the types of user variables and their enumeration literals
+ProcLocal(s) == {s.decls[i].n : i \in 1..Len(s.decls)}
+                \cup UNION {IF s.decls[i].k = "enum" THEN {s.decls[i].lits[j] : j \in 1..Len(s.decls[i].lits)} ELSE {} : i \in 1..Len(s.decls)}
 VariablesEscape(D) ==
   UNION {LET a == Archs(D)[k]
              declared == {a.decls[i].n : i \in {j \in 1..Len(a.decls) : a.decls[j].k \in {"signal", "constant"}}}
@@ -148,7 +151,7 @@ TypeNamesUsed(D, a) ==
   LET ent == EntOf(D, a.of) IN
   (IF ent.k = "none" THEN {} ELSE {ent.ports[i].ty.n : i \in 1..Len(ent.ports)})
   \cup {a.decls[i].ty.n : i \in {j \in 1..Len(a.decls) : a.decls[j].k \in {"signal", "constant"}}}
-  \cup UNION {IF a.stmts[i].k = "process" THEN {a.stmts[i].decls[j].ty.n : j \in 1..Len(a.stmts[i].decls)} ELSE {} : i \in 1..Len(a.stmts)}
+  \cup UNION {IF a.stmts[i].k = "process" THEN {a.stmts[i].decls[j].ty.n : j \in {q \in 1..Len(a.stmts[i].decls) : a.stmts[i].decls[q].k = "variable"}} ELSE {} : i \in 1..Len(a.stmts)}
 
 RECURSIVE CallNames(_), CallNamesSeq(_, _), StmtCallNames(_), StmtsCallNames(_, _)
 CallNames(e) ==
@@ -177,7 +180,7 @@ ArchCallNames(a) ==
 HidesPredefined(D) ==
   UNION {LET a == Archs(D)[k]
              declared == {ArchRegionNames(D, a)[i] : i \in 1..Len(ArchRegionNames(D, a))}
-                         \cup UNION {IF a.stmts[i].k = "process" THEN ProcVars(a.stmts[i]) ELSE {} : i \in 1..Len(a.stmts)}
+                         \cup UNION {IF a.stmts[i].k = "process" THEN ProcLocal(a.stmts[i]) ELSE {} : i \in 1..Len(a.stmts)}
              \* names the text relies on as predefined: type marks, and names in call position
              relied == (TypeNamesUsed(D, a) \cup ArchCallNames(a) \cup ({"true", "false"} \cap ArchUsedNames(a))) \cap Predefined
          IN {<<a.of, n>> : n \in declared \cap relied} : k \in 1..Len(Archs(D))}
@@ -193,7 +196,7 @@ Undeclared(D) ==
                                  [] s.k = "cassert" -> Names(s.c)
                                  [] s.k = "inst" -> UNION {IF s.pmap[q].a.k = "open" THEN {} ELSE Names(s.pmap[q].a) : q \in 1..Len(s.pmap)}
                                  [] OTHER -> {}
-                       local == IF s.k = "process" THEN ProcVars(s) ELSE {}
+                       local == IF s.k = "process" THEN ProcLocal(s) ELSE {}
                    IN {<<a.of, n>> : n \in used \ (region \cup local \cup Predefined)} : i \in 1..Len(a.stmts)}
          : k \in 1..Len(Archs(D))}
 
